@@ -1,10 +1,13 @@
 """C08 — the table manager's log records exactly what was played, independently of thread timing."""
 TITLE = "The table manager's log records exactly what was played"
-LEAN_TARGETS = ['BridgeVerif.Props.C08']
+LEAN_TARGETS = ['BridgeVerif.Props.C08', 'BridgeVerif.Translated.ThreadsMainA']
+AUDIT_PROPS = ['C08', 'Translated.ThreadsMainA']
 REQUIRED = ['log_is_session_spec', 'log_independent_of_schedule', 'scores_are_opposite', 'passed_out_record_shape',
-            'deal_logged_is_original', 'record_follows_rules', 'main_thread_follows_the_messages']
+            'deal_logged_is_original', 'record_follows_rules', 'main_thread_follows_the_messages',
+            'Translated.ThreadsMainA.main_sync_event_translated', 'Translated.ThreadsMainA.main_deal_translated',
+            'Translated.ThreadsMainA.main_bidding_translated', 'Translated.ThreadsMainA.main_bidding_illegal_raises']
 SHARDS = {'quick': 4, 'thorough': 16}
-WANT = {'completion', 'log'}
+WANT = {'completion', 'log', 'ops'}
 RULE = ('sessions of 1-3 boards on the unmodified threaded Server with four scripted conforming clients (random legal '
         'auctions incl. passed-out, random play incl. revokes, both card notations, letter case, alert suffixes, arbitrary '
         'board ids, optional double-dummy tables) under random / PCT / lowest-first / stall-one schedules; every scenario '
